@@ -2107,7 +2107,28 @@ def probe_chains(rng: random.Random, cu, n: int) -> list[list[str]]:
     for td in u.types.values():
         inner += list(td["bound"])
     out = []
+    objs = {"a": "t1", "b": "t2", "c": "t1", "oa": "t1", "ob": "t2", "mk_t1": "t1", "t1": "t1", "t2": "t2"}
     for _ in range(n):
+        if rng.random() < 0.5:
+            # a walk along the declared types: object, object-valued components (parent component
+            # included), then a component / binding / nonsense label
+            o = rng.choice(list(objs))
+            t = objs[o]
+            ch = [o]
+            for _ in range(rng.choice([0, 0, 1, 1, 2])):
+                nxt = dict(u.types[t]["objs"]); nxt.update(u.types[t]["objarrs"])
+                for p_ in type_parents(u.types, t):
+                    nxt[p_] = p_
+                if not nxt:
+                    break
+                c_ = rng.choice(sorted(nxt))
+                ch.append(c_)
+                t = nxt[c_]
+            last = (type_members(u.types, t, "scalars") + type_members(u.types, t, "arrays")
+                    + [b_ for b_, _ in type_bindings(u.types, t, "sub") + type_bindings(u.types, t, "fun")] + ["zz", "fa"])
+            ch.append(rng.choice(last))
+            out.append([c.lower() for c in ch])
+            continue
         ln = rng.choice([1, 2, 2, 3, 3, 4])
         ch = [rng.choice(roots[:12] if rng.random() < 0.7 else roots)]
         for _ in range(ln - 1):
@@ -2778,6 +2799,7 @@ def run(tier: str, seed: int, replay: str | None = None) -> int:
                     n_bad_corr += 1
                     rep.tie_broken(f"correspondence unit/find-chain-item: chain model and implementation differ on case {k} ({un['name']})",
                                    dict(case, chains=["%".join(c) for c in un["probes"]], impl=un["found"], model=mf))
+                chain_hist["probes"] = chain_hist.get("probes", 0) + len(un["found"] or [])
                 for x, ch in zip(un["found"] or [], un["probes"]):
                     key = f"probe:len{len(ch)}:" + x[:1]
                     chain_hist[key] = chain_hist.get(key, 0) + 1
@@ -2828,7 +2850,7 @@ def run(tier: str, seed: int, replay: str | None = None) -> int:
                         rep.failing_input(full, c)
     drv.close()
     rep.coverage.update(
-        evaluations=ev_micro + n_units_total,
+        evaluations=ev_micro + n_units_total + chain_hist.get("probes", 0),
         distinct_nontrivial=len(distinct),
         rule="unit cases are (random universe of overlapping names x random specification part x random executable part "
              "x random legal layout) for a module procedure / main program and its internal procedures; "
@@ -2866,7 +2888,14 @@ def run(tier: str, seed: int, replay: str | None = None) -> int:
         "validated on the micro stream; FORMAT_RE and ARITH_GOTO_RE are not read by hand: their re._parser parse "
         "trees are regenerated on every run and interpreted by the model (list-of-successes matcher, ASCII "
         "IGNORECASE), also validated on the micro stream",
-        "chains longer than one element are compared before correlate() and by the oracle after it; "
-        "`_find_chain_item` itself is not modelled (C07)",
+        "chains of every length are compared before correlate() (scanner model), after it (chain model `keptAll`: "
+        "`_find_chain_item` + the calls loop) and judged by the oracle; the chain model is told the derived types, their "
+        "members (inherited ones included) and the declared type of every object from the GENERATED declarations; "
+        "`strip_type` and the copying of inherited members at the type's own correlate are outside the model; probe "
+        "chains that go THROUGH a function whose `all_types` does not exist yet (AttributeError in FORD, no Fortran "
+        "designator) are not compared",
+        "fixed-form cases: statements are cut into cards only where a blank is harmless (next to a blank or to one of "
+        "`,()%`), never inside a name or a literal (C14's territory); no inline `!` comment inside columns 7-72; the "
+        "length limit is on (default)",
     ]
     return rep.finish(lean)
